@@ -270,7 +270,8 @@ func c08Coq(c *C08Case, o *C08Obs) string {
 var c08Codes = []string{"200", "201", "2XX", "404", "4XX", "5XX", "default", "301", "1XX", "3XX"}
 var c08Statuses = []int{200, 201, 204, 299, 300, 301, 304, 307, 308, 399, 400, 404, 499, 500, 503, 599, 100, 199, 99, 600, 0, 1000}
 var c08CTs = []string{"application/json", "application/json", "application/json; charset=utf-8", "application/json ;x=1", "application/problem+json", "text/plain", "text/plain; charset=utf-8",
-	"application/xml", "", "application", "text/html", "APPLICATION/JSON", "application/hal+json"}
+	"application/xml", "", "application", "text/html", "APPLICATION/JSON", "application/hal+json",
+	"application/json; charset=utf-8; profile=demo", "text/plain;a=1;b=2", "application/problem+json; v=1; q=2"}
 var c08Keys = []string{"application/json", "application/json", "application/*", "*/*", "text/plain", "application/problem+json", "text/*", "application/json; charset=utf-8"}
 
 func c08RandBodySchema(r *Rng) *GSchema {
